@@ -65,6 +65,8 @@ structure Tbl where
   /-- `\w` and `\d` of `re` (str patterns), as code point ranges -/
   word : List (Nat × Nat)
   digit : List (Nat × Nat)
+  /-- alternatives of `SEMICOLON_OPTIONAL_ENTITY_RE`: the entity names `html.entities.html5` also lists without `;` -/
+  legacy : List PStr
 
 def inRanges (rs : List (Nat × Nat)) (c : Nat) : Bool := rs.any fun r => r.1 ≤ c && c ≤ r.2
 
@@ -72,6 +74,9 @@ def isAlpha (c : Nat) : Bool := (65 ≤ c && c ≤ 90) || (97 ≤ c && c ≤ 122
 def isDigit (c : Nat) : Bool := 48 ≤ c && c ≤ 57
 def isAlnum (c : Nat) : Bool := isAlpha c || isDigit c
 def isHex (c : Nat) : Bool := isDigit c || (65 ≤ c && c ≤ 70) || (97 ≤ c && c ≤ 102)
+/-- `[-.a-zA-Z0-9]` — the tail of html.parser's `entityref = '&([a-zA-Z][-.a-zA-Z0-9]*)[^a-zA-Z0-9]'` (html/parser.py:22)
+    and of `ENTITY_NAME_RE` -/
+def isNameChar (c : Nat) : Bool := isAlnum c || c = 45 || c = 46
 
 /-- `key(?![notNext])` matches at the head of `l`. (An empty key is not a particle.) -/
 def Particle.matchesAt (p : Particle) (l : PStr) : Bool :=
@@ -166,9 +171,14 @@ def substHtmlWith (T : Tbl) (ps : List Particle) (s : PStr) : PStr := reSub ps (
 
 def substHtml (T : Tbl) (s : PStr) : PStr := substHtmlWith T T.particlesAmp s
 
-/-! ## substitute_html5 (dammit.py:425-458) -/
+/-! ## substitute_html5
 
-/-- first pass: `ANY_ENTITY_RE.sub(_escape_entity_name, s)` — `&X;` ↦ `&amp;X;` wherever `X` looks like an entity
+Two versions. `substHtml5Old` is bs4 4.13.0 as shipped (`ANY_ENTITY_RE.sub(_escape_entity_name, s)` first): it is **not**
+reversible (`BS.Props.C09.html5_old_not_reversible_*`). `substHtml5` is the repaired function
+(fixes/C09-html5-ampersand.diff): the first pass visits every `&` and escapes it exactly when a parser would read it as the
+start of a character reference. -/
+
+/-- first pass of 4.13.0: `ANY_ENTITY_RE.sub(_escape_entity_name, s)` — `&X;` ↦ `&amp;X;` wherever `X` looks like an entity
     body. The matched body is copied (it holds no `&`), so the scan skips it. -/
 def escapeEntities (T : Tbl) : Nat → PStr → PStr
   | _, [] => []
@@ -180,8 +190,33 @@ def escapeEntities (T : Tbl) : Nat → PStr → PStr
       | none => c :: escapeEntities T 0 cs
     else c :: escapeEntities T 0 cs
 
+def substHtml5Old (T : Tbl) (s : PStr) : PStr := reSub T.particles (htmlRep T) 0 (escapeEntities T 0 s)
+
+/-- `SEMICOLON_OPTIONAL_ENTITY_RE.match(s, after)`: some alternative is a prefix of what follows -/
+def legacyPrefix (T : Tbl) (l : PStr) : Bool := T.legacy.any (·.isPrefixOf l)
+
+/-- `_escape_ampersand_a_parser_would_interpret`, on what follows the `&`: `#`; or `ANY_ENTITY_RE` matches; or a name
+    (`ENTITY_NAME_RE`: `[a-zA-Z][-.a-zA-Z0-9]*`, greedy) that is followed by `;`, or is a key of
+    `HTML_ENTITY_TO_CHARACTER`, or begins with a name that needs no semicolon. -/
+def ampNeedsEscape (T : Tbl) (cs : PStr) : Bool :=
+  match cs with
+  | [] => false
+  | d :: _ =>
+    d = 35 || (entityLen T true cs).isSome ||
+      (isAlpha d &&
+        ((match cs.drop (spanLen isNameChar cs) with
+          | 59 :: _ => true
+          | _ => false) ||
+         (T.toChar.get (cs.take (spanLen isNameChar cs))).isSome || legacyPrefix T cs))
+
+/-- first pass: `AMPERSAND_RE.sub(_escape_ampersand_a_parser_would_interpret, s)` -/
+def escapeAmpersands (T : Tbl) : PStr → PStr
+  | [] => []
+  | c :: cs =>
+    if c = 38 && ampNeedsEscape T cs then amp ++ escapeAmpersands T cs else c :: escapeAmpersands T cs
+
 def substHtml5With (T : Tbl) (ps : List Particle) (s : PStr) : PStr :=
-  reSub ps (htmlRep T) 0 (escapeEntities T 0 s)
+  reSub ps (htmlRep T) 0 (escapeAmpersands T s)
 
 def substHtml5 (T : Tbl) (s : PStr) : PStr := substHtml5With T T.particles s
 
@@ -236,6 +271,19 @@ def formatterSubstitute (T : Tbl) (X : List (Nat × PStr)) (e : RegEntry) (paren
   else match parentTag with
     | some t => if e.cdata.contains t then s else applyFn T X e.fn s
     | none => applyFn T X e.fn s
+
+/-- `Formatter._default(language, value, "cdata_containing_tags")` (formatter.py:66-77): an explicit value — an empty
+    collection included — is kept (`is not None`, not truthiness); `None` means no tag at all for XML and
+    `HTML_DEFAULTS["cdata_containing_tags"]` otherwise. -/
+def defaultCdata (htmlDefaults : List PStr) (xml : Bool) (value : Option (List PStr)) : List PStr :=
+  match value with
+  | some v => v
+  | none => if xml then [] else htmlDefaults
+
+/-- `Formatter(language, entity_substitution=fn, cdata_containing_tags=arg)` (formatter.py:79-136), as far as
+    `substitute` looks at it. -/
+def mkFormatter (htmlDefaults : List PStr) (xml : Bool) (fn : Nat) (cdataArg : Option (List PStr)) : RegEntry :=
+  { name := [], named := false, fn := fn, cdata := defaultCdata htmlDefaults xml cdataArg }
 
 def findFormatter (reg : List RegEntry) (named : Bool) (name : PStr) : Option RegEntry :=
   reg.find? fun e => e.named == named && e.name == name
